@@ -20,7 +20,7 @@ func init() { core.Register(check{}) }
 func (check) ID() string    { return "C11" }
 func (check) Level() string { return "exploration" }
 func (check) Rule() string {
-	return "programs = every pair (from, to) where from is one of the base shapes (nested structs inside list/set elements, map keys and values, depth 3, ids beyond 64/256, non-struct roots) and to is derived from it by one structural edit at any struct node at any depth (drop each field; add a field of each requiredness x {scalar, struct, list}; change an existing field's requiredness) or is identical; each pair parsed in ONE IDL (sub-descriptors of unchanged subtrees are pointer-shared, the identical pair is the very same descriptor) and in two separate parses (equal but distinct descriptors); values = container size 0..2, a variant with the first field of every struct absent, a variant with a field unknown to the source descriptor; options = all 2^4 of {DisallowUnknow, NotCheckRequireNess, WriteDefault, UseNativeSkip}. Oracle = 50-line projection model over ref/tbin. A case = (pair, parse mode, value variant) running all 16 option sets; non-trivial if the target differs from the source or the identical-descriptor clause is exercised. Later additions: unknown fields inside elements, lists whose later elements lack the first / last field, a recursive protobuf program, pointer-shared sub-descriptors for root-level edits. Round 8: unpacked repeated scalar field in the proto program."
+	return "programs = every pair (from, to) where from is one of the base shapes (nested structs inside list/set elements, map keys and values, depth 3, ids beyond 64/256, non-struct roots) and to is derived from it by one structural edit at any struct node at any depth (drop each field; add a field of each requiredness x {scalar, struct, list}; change an existing field's requiredness) or is identical; each pair parsed in ONE IDL (sub-descriptors of unchanged subtrees are pointer-shared, the identical pair is the very same descriptor) and in two separate parses (equal but distinct descriptors); values = container size 0..2, a variant with the first field of every struct absent, a variant with a field unknown to the source descriptor; options = all 2^4 of {DisallowUnknow, NotCheckRequireNess, WriteDefault, UseNativeSkip}. Oracle = 50-line projection model over ref/tbin. A case = (pair, parse mode, value variant) running all 16 option sets; non-trivial if the target differs from the source or the identical-descriptor clause is exercised. Later additions: unknown fields inside elements, lists whose later elements lack the first / last field, a recursive protobuf program, pointer-shared sub-descriptors for root-level edits. Round 8: unpacked repeated scalar field in the proto program. Thorough tier: every pair of single edits at two different struct nodes of a base (about 34 000 further targets)."
 }
 func (check) Assumptions() []string {
 	return []string{"reference = ref/tbin + projection model in checks/c11", "where source and target sub-descriptors are the same object the library copies the bytes verbatim (no requiredness check, no zero filling inside): the statement's 'identical descriptors reproduce the input' clause; the model takes descriptor identity as an input", "zero-filled default fields are appended after the source fields in ascending id order; compared in that order", "Protobuf half: see group names proto/* (added when ref/pbref is available)"}
@@ -107,55 +107,112 @@ func rewrite(s *tbin.Shape, p site, edit func(st *tbin.Shape)) *tbin.Shape {
 	return &c
 }
 
-func pairs() []pair {
-	var out []pair
-	for bi, b := range bases() {
-		out = append(out, pair{name: fmt.Sprintf("base%d/identical", bi), from: b, to: b, kind: "identical"})
-		for si, p := range structSites(b) {
-			p := p
-			// the struct at the site
-			target := b
-			for _, sel := range p {
-				switch {
-				case sel >= 0:
-					target = target.Fields[sel].S
-				case sel == -1:
-					target = target.Elem
-				default:
-					target = target.Key
-				}
+// edit = one structural edit at one struct node of a base shape.
+type edit struct {
+	site site
+	si   int
+	name string // the part of the pair name behind "base<i>/site<j>/"
+	kind string
+	f    func(s *tbin.Shape)
+}
+
+func editsOf(b *tbin.Shape) []edit {
+	var out []edit
+	for si, p := range structSites(b) {
+		p := p
+		// the struct at the site
+		target := b
+		for _, sel := range p {
+			switch {
+			case sel >= 0:
+				target = target.Fields[sel].S
+			case sel == -1:
+				target = target.Elem
+			default:
+				target = target.Key
 			}
-			for fi := range target.Fields {
-				fi := fi
-				out = append(out, pair{name: fmt.Sprintf("base%d/site%d/drop%d", bi, si, target.Fields[fi].ID), from: b, kind: "drop",
-					to: rewrite(b, p, func(s *tbin.Shape) { s.Fields = append(s.Fields[:fi:fi], s.Fields[fi+1:]...) })})
-				for _, req := range []int{1, 2} {
-					req := req
-					out = append(out, pair{name: fmt.Sprintf("base%d/site%d/req%d=%d", bi, si, target.Fields[fi].ID, req), from: b, kind: map[int]string{1: "req-required", 2: "req-optional"}[req],
-						to: rewrite(b, p, func(s *tbin.Shape) { s.Fields[fi].Req = req })})
-				}
+		}
+		for fi := range target.Fields {
+			fi := fi
+			out = append(out, edit{p, si, fmt.Sprintf("drop%d", target.Fields[fi].ID), "drop",
+				func(s *tbin.Shape) { s.Fields = append(s.Fields[:fi:fi], s.Fields[fi+1:]...) }})
+			for _, req := range []int{1, 2} {
+				req := req
+				out = append(out, edit{p, si, fmt.Sprintf("req%d=%d", target.Fields[fi].ID, req), map[int]string{1: "req-required", 2: "req-optional"}[req],
+					func(s *tbin.Shape) { s.Fields[fi].Req = req }})
 			}
-			for ti, nt := range []*tbin.Shape{tbin.Sc(tbin.I32), st(sf(1, tbin.Sc(tbin.I32))), tbin.ListS(tbin.Sc(tbin.STRING)), tbin.MapS(tbin.Sc(tbin.I16), tbin.Sc(tbin.DOUBLE)), tbin.Sc(tbin.STRING)} {
-				for _, req := range []int{0, 1, 2} {
-					nt, req := nt, req
-					// 77 / 300: another bitmap word than the low ids of the bases; 40: the SAME word as the low ids, so that
-					// an absent low field and the added field are pending in one word of the requires bitmap
-					for _, id := range []int16{77, 300, 40} {
-						if id == 300 && (ti != 0 || req == 2) {
-							continue
-						}
-						if id == 40 && (ti > 1 || hasFieldID(target, 40)) {
-							continue
-						}
-						id := id
-						out = append(out, pair{name: fmt.Sprintf("base%d/site%d/add%d:%s,req=%d", bi, si, id, nt, req), from: b, kind: map[int]string{0: "add-default", 1: "add-required", 2: "add-optional"}[req],
-							to: rewrite(b, p, func(s *tbin.Shape) { s.Fields = append(s.Fields, tbin.SField{ID: id, S: nt, Req: req}) })})
+		}
+		for ti, nt := range []*tbin.Shape{tbin.Sc(tbin.I32), st(sf(1, tbin.Sc(tbin.I32))), tbin.ListS(tbin.Sc(tbin.STRING)), tbin.MapS(tbin.Sc(tbin.I16), tbin.Sc(tbin.DOUBLE)), tbin.Sc(tbin.STRING)} {
+			for _, req := range []int{0, 1, 2} {
+				nt, req := nt, req
+				// 77 / 300: another bitmap word than the low ids of the bases; 40: the SAME word as the low ids, so that
+				// an absent low field and the added field are pending in one word of the requires bitmap
+				for _, id := range []int16{77, 300, 40} {
+					if id == 300 && (ti != 0 || req == 2) {
+						continue
 					}
+					if id == 40 && (ti > 1 || hasFieldID(target, 40)) {
+						continue
+					}
+					id := id
+					out = append(out, edit{p, si, fmt.Sprintf("add%d:%s,req=%d", id, nt, req), map[int]string{0: "add-default", 1: "add-required", 2: "add-optional"}[req],
+						func(s *tbin.Shape) { s.Fields = append(s.Fields, tbin.SField{ID: id, S: nt, Req: req}) }})
 				}
 			}
 		}
 	}
 	return out
+}
+
+func pairs() []pair {
+	var out []pair
+	for bi, b := range bases() {
+		out = append(out, pair{name: fmt.Sprintf("base%d/identical", bi), from: b, to: b, kind: "identical"})
+		for _, e := range editsOf(b) {
+			out = append(out, pair{name: fmt.Sprintf("base%d/site%d/%s", bi, e.si, e.name), from: b, kind: e.kind, to: rewrite(b, e.site, e.f)})
+		}
+	}
+	return out
+}
+
+// doublePairs (thorough tier): every pair of single edits at two DIFFERENT struct nodes of a base. The edit at the
+// longer path is applied first, so that the selectors of the second path still address the same nodes (an edit at
+// a shorter or unrelated path never moves a node on the spine of the other one).
+var doubleMemo []pair
+
+func doublePairs() []pair {
+	if doubleMemo != nil {
+		return doubleMemo
+	}
+	var out []pair
+	for bi, b := range bases() {
+		es := editsOf(b)
+		for i := range es {
+			for j := i + 1; j < len(es); j++ {
+				a, c := es[i], es[j]
+				if a.si == c.si {
+					continue
+				}
+				if len(a.site) > len(c.site) {
+					a, c = c, a
+				}
+				// c has the longer (or equal) path: first
+				to := rewrite(rewrite(b, c.site, c.f), a.site, a.f)
+				out = append(out, pair{name: fmt.Sprintf("base%d/site%d/%s+site%d/%s", bi, c.si, c.name, a.si, a.name), from: b, kind: c.kind + "+" + a.kind, to: to})
+			}
+		}
+	}
+	doubleMemo = out
+	return out
+}
+
+const dchunk = 240
+
+func nDoubleGroups(tier string) int {
+	if tier != "thorough" {
+		return 0
+	}
+	return (len(doublePairs()) + dchunk - 1) / dchunk
 }
 
 const chunk = 12
@@ -167,6 +224,9 @@ func (check) Groups(tier string, seed int64) []string {
 		g = append(g, fmt.Sprintf("thrift/pairs/%d-%d", i, i+chunk))
 	}
 	g = append(g, protoGroups()...)
+	for i := 0; i < nDoubleGroups(tier); i++ {
+		g = append(g, fmt.Sprintf("thrift/double-edits/%d-%d", i*dchunk, i*dchunk+dchunk))
+	}
 	return g
 }
 
@@ -292,12 +352,15 @@ func addUnknown(v *tbin.Val) {
 }
 
 func (check) Enumerate(tier string, seed int64, group int, yield func(core.Case) bool) {
-	if group >= nThriftGroups() {
+	ps := pairs()
+	lo, hi := group*chunk, group*chunk+chunk
+	if np := nThriftGroups() + len(protoGroups()); group >= np {
+		ps = doublePairs()
+		lo, hi = (group-np)*dchunk, (group-np)*dchunk+dchunk
+	} else if group >= nThriftGroups() {
 		protoEnumerate(group-nThriftGroups(), yield)
 		return
 	}
-	ps := pairs()
-	lo, hi := group*chunk, group*chunk+chunk
 	if hi > len(ps) {
 		hi = len(ps)
 	}
@@ -320,7 +383,25 @@ func (check) Enumerate(tier string, seed int64, group int, yield func(core.Case)
 	}
 }
 
+var descsMemo struct {
+	key    string
+	fd, td *thrift.TypeDescriptor
+}
+
+// descsOf: the descriptors of a pair are parsed once per (pair, parse mode) and shared by its consecutive cases
+// (value variants x option sets), as one service would share them between requests.
 func descsOf(p pair, parse string) (fd, td *thrift.TypeDescriptor, err error) {
+	if descsMemo.key == p.name+"|"+parse {
+		return descsMemo.fd, descsMemo.td, nil
+	}
+	fd, td, err = descsOf0(p, parse)
+	if err == nil {
+		descsMemo.key, descsMemo.fd, descsMemo.td = p.name+"|"+parse, fd, td
+	}
+	return
+}
+
+func descsOf0(p pair, parse string) (fd, td *thrift.TypeDescriptor, err error) {
 	get := func(idl string, i int) (*thrift.TypeDescriptor, error) {
 		svc, err := thrift.Options{}.NewDescritorFromContent(context.Background(), "a/b/main.thrift", idl, nil, false)
 		if err != nil {
